@@ -79,6 +79,96 @@ def make_droplet(ds: dict):
     return cls(pos, ds["radius"], ds.get("width"), list(amps) if amps else None)
 
 
+# numeric types in which a candidate can be written down (input_dimensions.md 4); the VALUES are those of the spec
+CTYPES = ["list", "tuple", "ndarray", "int", "float32", "npscalar", "0d"]
+# where a candidate object can come from (input_dimensions.md 3)
+PROVENANCES = ["fresh", "copy", "deepcopy", "pickle", "from_data", "copy_kw", "emulsion", "emulsion_copy",
+               "emulsion_pickle", "track"]
+
+
+def quantise(ds: dict, ctype: str) -> dict:
+    """the spec with values that the numeric type `ctype` represents exactly (int: whole numbers; float32)"""
+    out = copy.deepcopy(ds)
+    if ctype == "int":
+        f = lambda v: float(round(v))                                   # noqa: E731
+        out["radius"] = max(1.0, f(out["radius"]))
+        if out.get("width") is not None:
+            out["width"] = max(1.0, f(out["width"]))
+    elif ctype == "float32":
+        f = lambda v: float(np.float32(v))                              # noqa: E731
+        out["radius"] = f(out["radius"])
+        if out.get("width") is not None:
+            out["width"] = f(out["width"])
+    else:
+        return out
+    out["position"] = [f(v) for v in out["position"]]
+    return out
+
+
+def make_droplet_typed(ds: dict, ctype: str):
+    """the droplet of the spec, constructed from arguments of the numeric type `ctype`"""
+    import droplets.droplets as dd
+    if ctype in (None, "list"):
+        return make_droplet(ds)
+    cls = getattr(dd, ds["cls"])
+    pos, rad, w, amps = list(ds["position"]), ds["radius"], ds.get("width"), ds.get("amplitudes")
+    if ctype == "tuple":
+        pos, amps = tuple(pos), (tuple(amps) if amps else amps)
+    elif ctype == "ndarray":
+        pos, amps = np.array(pos, dtype=float), (np.array(amps, dtype=float) if amps else amps)
+    elif ctype == "int":
+        pos, rad, w = [int(v) for v in pos], int(rad), (None if w is None else int(w))
+    elif ctype == "float32":
+        pos, rad, w = np.array(pos, dtype=np.float32), np.float32(rad), (None if w is None else np.float32(w))
+    elif ctype == "npscalar":
+        pos, rad, w = [np.float64(v) for v in pos], np.float64(rad), (None if w is None else np.float64(w))
+    elif ctype == "0d":
+        pos, rad, w = np.array(pos, dtype=float), np.array(rad, dtype=float), (None if w is None else np.array(w, dtype=float))
+    else:
+        raise ValueError(ctype)
+    if ds["cls"] == "SphericalDroplet":
+        return cls(pos, rad)
+    if ds["cls"] == "DiffuseDroplet":
+        return cls(pos, rad, w)
+    return cls(pos, rad, w, amps if amps is not None and len(amps) else None)
+
+
+def make_candidate(ds: dict, prov: str | None = None, ctype: str | None = None):
+    """-> (candidate object, container it is a member of or None).  `prov`: how the object came about"""
+    import pickle
+    d = make_droplet_typed(ds, ctype)
+    if prov in (None, "fresh"):
+        return d, None
+    if prov == "copy":
+        return d.copy(), None
+    if prov == "deepcopy":
+        return copy.deepcopy(d), None
+    if prov == "pickle":                       # what a worker process receives / returns
+        return pickle.loads(pickle.dumps(d)), None
+    if prov == "from_data":
+        return type(d).from_data(d.data.copy()), None
+    if prov == "copy_kw":                      # copy(**kwargs) goes through from_droplet -> cls(**args)
+        other = copy.deepcopy(ds)
+        other["radius"] = ds["radius"] + 1.0
+        return make_droplet(other).copy(radius=ds["radius"]), None
+    from droplets import DropletTrack, Emulsion
+    if prov == "emulsion":
+        em = Emulsion([d, d.copy()])
+        return em[0], em
+    if prov == "emulsion_copy":
+        em = Emulsion([d, d.copy()]).copy()
+        return em[1], em
+    if prov == "emulsion_pickle":
+        em = pickle.loads(pickle.dumps(Emulsion([d, d.copy()])))
+        return em[0], em
+    if prov == "track":
+        tr = DropletTrack()
+        tr.append(d, time=0)
+        tr.append(d.copy(), time=1)
+        return tr.droplets[1], tr.droplets
+    raise ValueError(prov)
+
+
 def droplet_spec(d) -> dict:
     ds = {"cls": type(d).__name__, "position": [float(x) for x in d.position], "radius": float(d.radius)}
     if hasattr(d, "interface_width"):
@@ -87,6 +177,11 @@ def droplet_spec(d) -> dict:
     if hasattr(d, "amplitudes"):
         ds["amplitudes"] = [float(a) for a in d.amplitudes]
     return ds
+
+
+def same_spec(a: dict, b: dict) -> bool:
+    return (a["cls"] == b["cls"] and list(a["position"]) == list(b["position"]) and a["radius"] == b["radius"]
+            and a.get("width") == b.get("width") and list(a.get("amplitudes") or []) == list(b.get("amplitudes") or []))
 
 
 def flat_of(ds: dict) -> list[float]:
@@ -98,7 +193,7 @@ def make_image(isp: dict, grid):
     """b + a * (clipped sum of the truth droplets' standard profiles) + sigma * normal noise, or a constant"""
     from pde import ScalarField
     if isp["kind"] == "const":
-        return ScalarField(grid, float(isp["value"]))
+        return typed_field(isp, grid, np.full(grid.shape, float(isp["value"])))
     from droplets import Emulsion
     drops = [make_droplet(t) for t in isp["truth"]]
     if len(drops) == 1:
@@ -108,7 +203,36 @@ def make_image(isp: dict, grid):
     data = isp.get("b", 0.0) + isp.get("a", 1.0) * np.asarray(data, float)
     if isp.get("sigma", 0.0) > 0:
         data = data + isp["sigma"] * np.random.default_rng(isp["nseed"]).standard_normal(data.shape)
-    return ScalarField(grid, data)
+    return typed_field(isp, grid, data)
+
+
+IMAGE_DTYPES = ["float64", "float32", "float16", "int64", "int32", "int16", "uint8", "int8", "bool"]
+
+
+def typed_field(isp: dict, grid, data):
+    """the ScalarField of the image spec: data type `dtype` (integer types: rounded to the nearest integer) and
+    provenance `field` (fresh / copy / pickle round trip)"""
+    from pde import ScalarField
+    dt = isp.get("dtype", "float64")
+    if dt == "float64":
+        f = ScalarField(grid, data)
+    else:
+        npdt = np.dtype(dt)
+        if npdt.kind == "b":       # binary image: above / below the mid-level of the rendered intensities
+            data = np.asarray(data) > (isp.get("b", 0.0) + isp.get("a", 1.0) / 2 if isp["kind"] != "const" else 0.5)
+        if npdt.kind in "iu":
+            data = np.rint(data)
+            info = np.iinfo(npdt)
+            assert data.min() >= info.min and data.max() <= info.max, "image spec does not fit the integer type"
+        f = ScalarField(grid, np.asarray(data).astype(npdt), dtype=npdt)
+        assert f.data.dtype == npdt
+    how = isp.get("field", "fresh")
+    if how == "copy":
+        f = f.copy()
+    elif how == "pickle":
+        import pickle
+        f = pickle.loads(pickle.dumps(f))
+    return f
 
 
 # =========================================================================================
@@ -133,7 +257,9 @@ class Instrument:
                 x0c = np.array(x0, dtype=float, copy=True)
                 rec = {"x0": x0c, "lo": np.array(np.broadcast_to(bounds[0], x0c.shape), float, copy=True),
                        "hi": np.array(np.broadcast_to(bounds[1], x0c.shape), float, copy=True),
-                       "extra_kw": sorted(k for k in kw if k != "bounds")}
+                       "extra_kw": sorted(k for k in kw if k != "bounds"),
+                       "kwargs": {k: copy.deepcopy(v) for k, v in kw.items() if k != "bounds"},
+                       "n_positional": len(args)}
                 inst.calls.append(rec)
                 try:
                     f0 = np.array(fun(x0c.copy()), dtype=float, copy=True)
@@ -211,30 +337,129 @@ def deviation(ds: dict, grid, region, image_data, vmin: float, vrng: float) -> f
 # =========================================================================================
 # one refinement, fully recorded
 # =========================================================================================
-def run_refine(case: dict) -> dict:
-    """run refine_droplet on the case; returns a record with everything the model / the oracle need"""
+LEVEL_TYPES = ["float", "int", "np.float64", "np.float32", "0d"]
+
+
+def typed_level(v, vtype):
+    """the intensity level `v` written as a value of the numeric type `vtype` (the value must be exact in it)"""
+    if v is None or vtype in (None, "float"):
+        return v
+    if vtype == "int":
+        assert float(v).is_integer()
+        return int(v)
+    if vtype == "np.float64":
+        return np.float64(v)
+    if vtype == "np.float32":
+        assert float(np.float32(v)) == v
+        return np.float32(v)
+    if vtype == "0d":
+        return np.array(v, dtype=float)
+    raise ValueError(vtype)
+
+
+def expected_lsq_kwargs(case: dict) -> dict:
+    """documented: `tolerance` sets ftol, xtol, gtol unless `least_squares_params` specifies them; everything else of
+    `least_squares_params` is passed on"""
+    want = dict(case.get("lsq_params") or {})
+    if case.get("tolerance") is not None:
+        for key in ("ftol", "xtol", "gtol"):
+            want.setdefault(key, case["tolerance"])
+    return want
+
+
+def _members(container) -> list:
+    return [(type(d).__name__, d.data.tobytes()) for d in container]
+
+
+def run_refine(case: dict, cand_obj=None) -> dict:
+    """run refine_droplet on the case; returns a record with everything the model / the oracle need.
+
+    Optional entries of `case` beyond grid / image / candidate / vmin / vmax / adjust:
+      tolerance, lsq_params    the documented keyword arguments (the caller's dict is inspected afterwards)
+      reuse_options            the same option dict object has been used for another refinement before
+      prov, ctype              provenance / numeric type of the candidate object (make_candidate)
+      vtype                    numeric type of vmin / vmax
+      after                    a case whose RESULT OBJECT is the candidate (refinement repeated on the same object)"""
     from droplets.image_analysis import refine_droplet
     grid = make_grid(case["grid"])
     assert list(grid.coordinate_constraints) == grid_constraints(case["grid"]), "py-pde constraints changed"
     image = make_image(case["image"], grid)
     before = np.array(image.data, copy=True)
-    cand = make_droplet(case["candidate"])
-    rec: dict = {"typical": float(grid.typical_discretization)}
-    kw = {"vmin": case["vmin"], "vmax": case["vmax"], "adjust_values": case["adjust"]}
+    rec: dict = {"typical": float(grid.typical_discretization), "out_obj": None}
+    container = None
+    if case.get("after") is not None:
+        if cand_obj is None:
+            cand_obj = run_refine(case["after"])["out_obj"]
+        if cand_obj is None:
+            case["candidate"] = copy.deepcopy(case["after"]["candidate"])
+            rec.update({"out": None, "error": "ParentFailed", "error_message": "the refinement that produces the candidate failed",
+                        "calls": [], "dilations": [], "image_unchanged": True, "image": before, "promoted": None, "region": None,
+                        "iterations": None, "dmin": None, "dmax": None, "hyp": 0.0, "cand_unchanged": True,
+                        "container_unchanged": True, "params_unchanged": True, "returned_is_candidate": False})
+            return rec
+        cand = cand_obj
+        case["candidate"] = droplet_spec(cand)
+    else:
+        cand, container = make_candidate(case["candidate"], case.get("prov"), case.get("ctype"))
+        if not same_spec(droplet_spec(cand), case["candidate"]):
+            # (a generator that did not quantise for its numeric type) the object is what is refined: respecify
+            rec["candidate_respecified"] = True
+            case["candidate"] = droplet_spec(cand)
+    vt = case.get("vtype")
+    kw = {"vmin": typed_level(case["vmin"], vt), "vmax": typed_level(case["vmax"], vt), "adjust_values": case["adjust"]}
     if case.get("tolerance") is not None:
         kw["tolerance"] = case["tolerance"]
+    params = None
+    if case.get("lsq_params") is not None:
+        params = copy.deepcopy(case["lsq_params"])
+        kw["least_squares_params"] = params
+    if case.get("reuse_options"):
+        # the caller's option objects have served an earlier refinement (of another droplet on the same image)
+        try:
+            refine_droplet(image, make_droplet(case["candidate"]), **kw)
+        except Exception:  # noqa
+            pass
+    params_before = copy.deepcopy(params)
+    cand_before = (type(cand).__name__, cand.data.tobytes())
+    members_before = _members(container) if container is not None else None
+    out = None
     with Instrument() as ins:
         try:
-            out = refine_droplet(image, cand, **kw)
-            rec["out"] = droplet_spec(out)
+            if case.get("via") == "refine_droplets":
+                # the serial path of the plural function, handed the caller's collection (or a one-element list)
+                from droplets.image_analysis import refine_droplets
+                res = refine_droplets(image, container if container is not None else [cand], num_processes=1, **kw)
+                idx = [i for i, d in enumerate(container) if d is cand][0] if container is not None else 0
+                out = res[idx]
+            else:
+                out = refine_droplet(image, cand, **kw)
             rec["error"] = None
         except Exception as e:  # noqa
             rec["out"] = None
             rec["error"] = exc_kind(e)
             rec["error_message"] = f"{type(e).__name__}: {e}"[:200]
+    if rec["error"] is None:
+        try:   # a result of the wrong kind is a property failure with this input, not a crash of the check
+            rec["out"] = droplet_spec(out)
+            rec["out_obj"] = out
+        except Exception as e:  # noqa
+            rec["out"] = None
+            rec["error"] = "BadResult"
+            rec["error_message"] = f"the returned object {out!r:.80} is not a droplet: {type(e).__name__}: {e}"[:200]
     rec["calls"], rec["dilations"] = ins.calls, ins.dilations
-    rec["image_unchanged"] = bool(np.array_equal(before, image.data))
+    rec["image_unchanged"] = bool(np.array_equal(before, image.data)) and image.data.dtype == before.dtype
     rec["image"] = before
+    rec["returned_is_candidate"] = out is cand
+    # caller-visible state: the candidate object (unless it IS the returned object's source by documented design: see
+    # SUSPECTED), the container it is a member of, the option dict
+    rec["cand_unchanged"] = (type(cand).__name__, cand.data.tobytes()) == cand_before
+    try:
+        rec["cand_after"] = droplet_spec(cand)
+    except Exception:  # noqa
+        rec["cand_after"] = None
+    rec["container_unchanged"] = container is None or _members(container) == members_before
+    rec["params_unchanged"] = params == params_before
+    rec["params_after"] = params
     # independent recomputation of region and intensity levels
     try:
         prom = promoted(case["candidate"], grid)
@@ -262,6 +487,43 @@ def effective_levels(case: dict, rec: dict):
     return vmin, vmax
 
 
+def impl_levels(case: dict, rec: dict) -> tuple[float, float]:
+    """(vmin, vrng) of the objective at the start: the effective levels as Python floats (automatic levels are
+    `float(np.min(...))` / `float(np.max(...))`, whatever the data type of the image)"""
+    vmin, vmax = effective_levels(case, rec)
+    vt = case.get("vtype")
+    if vt == "np.float32":
+        # a level SUPPLIED as numpy.float32 makes `vmax - vmin` a float32 result (numpy promotion with a Python float)
+        a = typed_level(case["vmin"], vt) if case["vmin"] is not None else float(vmin)
+        b = typed_level(case["vmax"], vt) if case["vmax"] is not None else float(vmax)
+        return float(a), float(b - a)
+    return float(vmin), float(vmax) - float(vmin)
+
+
+def single_precision_noise(case: dict, rec: dict, scale: float, vmin: float, vrng: float, dev: float) -> float:
+    """bound on |deviation seen by the optimiser - deviation recomputed in binary64| (both in units of scale^2) when
+    the image is float32 / float16 (the normalised data `data_mask / scale` keep that type) or a level was supplied as
+    numpy.float32 (the normalised levels are float32): every one of the N residuals is off by at most
+    e = eps * M, M the largest normalised magnitude involved; |sum (r+d)^2 - sum r^2| <= 2 sqrt(N dev) e + N e^2"""
+    dt = np.dtype(case["image"].get("dtype", "float64"))
+    eps = 0.0
+    if dt.kind == "f" and dt.itemsize < 8:
+        eps = float(np.finfo(dt).eps)
+    if case.get("vtype") == "np.float32" and not (case["vmin"] is None and case["vmax"] is None):
+        eps = max(eps, float(np.finfo(np.float32).eps))
+    if eps == 0.0 or rec.get("region") is None or not rec["region"].any():
+        return 0.0
+    n = int(rec["region"].sum())
+    big = max(float(np.max(np.abs(rec["image"][rec["region"]].astype(float)))), abs(vmin) + abs(vrng)) / scale
+    e = 2 * eps * big
+    return 2 * math.sqrt(n * max(dev, 0.0)) * e + n * e * e
+
+
+def level_scale(vrng: float) -> float:
+    """the unit in which refine_droplet measures intensities (repair F34): |vmax - vmin|, or 1 for a vanishing / non-finite range"""
+    return abs(vrng) if vrng != 0 and math.isfinite(vrng) else 1.0
+
+
 # =========================================================================================
 # oracle-spec checks of one recorded least_squares call
 # =========================================================================================
@@ -273,9 +535,10 @@ def lsq_spec_failures(call: dict) -> list[str]:
     if not (np.all(lo <= x) and np.all(x <= hi)):
         out.append(f"result outside the bounds: x={x.tolist()} lo={lo.tolist()} hi={hi.tolist()}")
     if "cost0" in call:
-        on_bound = bool(np.any(x0 <= lo) or np.any(x0 >= hi))
-        # a start ON a bound is first moved inside by 1e-10 (scipy make_strictly_feasible): the reference cost is
-        # that of the moved point; allow the first-order change 1e-6 * (cost0 + 1) there, exact comparison otherwise
+        on_bound = bool(np.any(x0 <= lo) or np.any(x0 >= hi)) or near_bound_start(call)
+        # a start ON a bound -- for scipy: closer to it than rstep = 1e-10 * max(1, |bound|) (find_active_constraints) -- is
+        # first moved inside by 1e-10 (make_strictly_feasible; to the middle of an interval narrower than that): the reference
+        # cost is that of the moved point; allow the first-order change 1e-6 * (cost0 + 1) there, exact comparison otherwise
         slack = 1e-6 * (call["cost0"] + 1.0) if on_bound else 0.0
         if not call["cost"] <= call["cost0"] + slack:
             out.append(f"cost increased: {call['cost0']!r} -> {call['cost']!r}")
@@ -425,6 +688,7 @@ def gen_candidate(rng: random.Random, gs: dict, truth: dict, cls: str, modes: in
     return ds
 
 
+MODE_COUNTS = [0, 2, 3, 1, 4, 6]      # amplitude vectors of length 0, 1, odd and even length
 OPTION_GRID = [(gv, gx, adj) for gv in (True, False) for gx in (True, False) for adj in (False, True)]
 
 
@@ -449,7 +713,7 @@ def gen_case(rng: random.Random, k: int) -> dict:
     cls = cl[(k // len(FAMILIES)) % len(cl)]
     if cls == "PerturbedDroplet3D" and fam == "cylindrical":
         cls = rng.choice(["PerturbedDroplet3DAxisSym", "DiffuseDroplet"])
-    modes = [0, 2, 3][(k // 7) % 3] if cls.startswith("Perturbed") else 0
+    modes = MODE_COUNTS[(k // 7) % len(MODE_COUNTS)] if cls.startswith("Perturbed") else 0
     kind = ["clean", "noisy", "affine", "clean", "affine_noisy"][(k // 3) % 5]
     tcls = cls if cls != "SphericalDroplet" else "DiffuseDroplet"
     truth = gen_truth(rng, gs, tcls, modes)
@@ -460,6 +724,305 @@ def gen_case(rng: random.Random, k: int) -> dict:
     vmin = (b if rng.random() < 0.7 else b - 0.1 * a) if gv else None
     vmax = (a + b if rng.random() < 0.7 else a + b + 0.1 * a) if gx else None
     return {"grid": gs, "image": isp, "candidate": cand, "vmin": vmin, "vmax": vmax, "adjust": adj}
+
+
+# -----------------------------------------------------------------------------------------
+# the dimension stream (notes/input_dimensions.md): one named recipe per case, cycled
+# -----------------------------------------------------------------------------------------
+def gen_grid_special(rng: random.Random, kind: str) -> dict:
+    """grids of the geometry dimension `kind` (small: <= 40 cells on the long axis)"""
+    h = rng.choice([0.5, 1.0, 0.75, 1.25])
+    if kind in ("negative", "centred", "positive"):
+        fam = rng.choice(["cart1", "cart2", "cart3", "cylindrical"])
+        gs = gen_grid(rng, fam)
+        axes = gs["bounds"] if fam != "cylindrical" else [gs["bounds_z"]]
+        for b in axes:
+            L = b[1] - b[0]
+            lo = {"negative": -L - dy(rng, 0.25, 3), "centred": -L / 2, "positive": dy(rng, 0.25, 3)}[kind]
+            b[0], b[1] = lo, lo + L
+        return gs
+    if kind in ("aniso_first_larger", "aniso_last_larger", "counts_first_larger", "counts_last_larger"):
+        d = rng.choice([2, 2, 3])
+        if kind.startswith("aniso"):
+            ratio = rng.choice([2.0, 3.0])
+            hs = [h * ratio] + [h] * (d - 1)
+            ns = [rng.randint(6, 8)] + [rng.randint(9, 12) if d == 2 else rng.randint(6, 8) for _ in range(d - 1)]
+        else:
+            hs = [h] * d
+            ns = [rng.randint(18, 24) if d == 2 else rng.randint(12, 14)] + [rng.randint(6, 8) for _ in range(d - 1)]
+        if kind.endswith("last_larger"):
+            hs, ns = hs[::-1], ns[::-1]
+        bounds = []
+        for n, hh in zip(ns, hs):
+            lo = dy(rng, -4, 4)
+            bounds.append([lo, lo + n * hh])
+        return {"family": "cartesian", "bounds": bounds, "shape": ns, "periodic": [rng.random() < 0.5 for _ in range(d)]}
+    if kind in ("cyl_narrow", "cyl_flat", "cyl_dz_larger", "cyl_dz_smaller"):
+        if kind == "cyl_narrow":      # finely sliced: a droplet is longer in z-cells than the grid has radial cells
+            nr, nz, hz = rng.randint(4, 6), rng.randint(24, 40), h * rng.choice([0.25, 0.5])
+        elif kind == "cyl_flat":
+            nr, nz, hz = rng.randint(14, 20), rng.randint(5, 8), h * rng.choice([1.5, 2.0])
+        elif kind == "cyl_dz_larger":
+            nr, nz, hz = rng.randint(6, 10), rng.randint(8, 12), h * rng.choice([2.0, 3.0])
+        else:
+            nr, nz, hz = rng.randint(6, 10), rng.randint(16, 24), h / rng.choice([2.0, 3.0])
+        z0 = dy(rng, -4, 4)
+        return {"family": "cylindrical", "radius": nr * h, "bounds_z": [z0, z0 + nz * hz], "shape": [nr, nz],
+                "periodic_z": rng.random() < 0.5}
+    if kind in ("thin1", "thin2"):
+        d = rng.choice([2, 2, 3])
+        ns = [rng.randint(9, 14) if d == 2 else rng.randint(6, 8) for _ in range(d)]
+        ns[rng.randrange(d)] = 1 if kind == "thin1" else 2
+        bounds = []
+        for n in ns:
+            lo = dy(rng, -4, 4)
+            bounds.append([lo, lo + n * h])
+        return {"family": "cartesian", "bounds": bounds, "shape": ns, "periodic": [rng.random() < 0.5 for _ in range(d)]}
+    if kind == "inner_radius":
+        fam = rng.choice(["polar", "spherical"])
+        n = rng.randint(10, 16)
+        r0 = h * rng.choice([0.5, 1.0, 2.0, 3.0])
+        return {"family": fam, "radius": [r0, r0 + n * h], "shape": n}
+    raise ValueError(kind)
+
+
+GRID_KINDS = ["negative", "centred", "positive", "aniso_first_larger", "aniso_last_larger", "counts_first_larger",
+              "counts_last_larger", "cyl_narrow", "cyl_flat", "cyl_dz_larger", "cyl_dz_smaller", "thin1", "thin2",
+              "inner_radius"]
+ACTIVE_KINDS = ["last_amplitude", "radius", "width", "vrng_hi", "vmin_lo", "vmin_hi", "vrng_lo"]
+CAND_KINDS = ["radius0", "width0", "on_face_periodic", "on_face_nonperiodic", "corner_periodic", "corner", "outside_nonperiodic",
+              "amplitude_on_bound", "amplitudes_zero", "last_amplitude_only", "on_locus", "off_locus"]
+IMAGE_KINDS = ["float32", "int64", "int32", "int16", "uint8", "int8", "bool", "inverted", "const", "field_copy", "field_pickle",
+               "scale_tiny", "scale_huge"]
+LSQ_PARAMS = [None, {}, {"method": "trf"}, {"method": "dogbox"}, {"ftol": 1e-5}, {"xtol": 1e-6, "gtol": 1e-6, "max_nfev": 40},
+              {"ftol": 1e-10, "xtol": 1e-10, "gtol": 1e-10}, {"x_scale": "jac"}, {"jac": "3-point"}, {"diff_step": 1e-6}]
+TOLERANCES = [None, 1e-3, 1e-6, 1e-10, 1]
+
+
+def _family_of(gs: dict) -> str:
+    return family_name(gs)
+
+
+def _class_for(rng: random.Random, gs: dict, perturbed: bool | None = None) -> tuple[str, int]:
+    cl = classes_for(_family_of(gs))
+    if _family_of(gs) == "cylindrical":
+        cl = [c for c in cl if c != "PerturbedDroplet3D"]
+    if perturbed is True:
+        cl = [c for c in cl if c.startswith("Perturbed")] or cl
+    if perturbed is False:
+        cl = [c for c in cl if not c.startswith("Perturbed")]
+    cls = rng.choice(cl)
+    modes = rng.choice(MODE_COUNTS) if cls.startswith("Perturbed") else 0
+    return cls, modes
+
+
+def _plain_case(rng: random.Random, gs: dict, cls: str, modes: int, kind: str = "clean", across: bool = True) -> dict:
+    tcls = cls if cls != "SphericalDroplet" else "DiffuseDroplet"
+    truth = gen_truth(rng, gs, tcls, modes)
+    isp = gen_image_spec(rng, truth, kind)
+    cand = gen_candidate(rng, gs, truth, cls, modes, across=across, tiny=False)
+    gv, gx, adj = rng.choice(OPTION_GRID)
+    return {"grid": gs, "image": isp, "candidate": cand, "vmin": isp["b"] if gv else None, "vmax": isp["a"] + isp["b"] if gx else None,
+            "adjust": adj}
+
+
+def gen_dim_case(rng: random.Random, k: int) -> dict:
+    """k-th case of the dimension stream; `case["dim"]` names the dimension and the value exercised"""
+    groups = ["grid", "active", "cand", "image", "options", "provenance", "types", "sequence"]
+    group = groups[k % len(groups)]
+    j = k // len(groups)
+    if group == "grid":
+        kind = GRID_KINDS[j % len(GRID_KINDS)]
+        gs = gen_grid_special(rng, kind)
+        cls, modes = _class_for(rng, gs)
+        case = _plain_case(rng, gs, cls, modes, rng.choice(["clean", "noisy", "affine"]))
+        if kind == "cyl_narrow":
+            # a candidate longer in z-cells than the grid has radial cells
+            hs = spacing(gs)
+            case["image"]["truth"][0]["radius"] = case["candidate"]["radius"] = min(0.8 * gs["radius"], (gs["shape"][0] + 2) * hs[1] / 2 + hs[1])
+        case["dim"] = "grid:" + kind
+        return case
+    if group == "active":
+        kind = ACTIVE_KINDS[j % len(ACTIVE_KINDS)]
+        if kind == "last_amplitude":
+            # the image shows a shape whose LAST amplitude lies outside [-1, 1]: the optimum pushes it onto the bound
+            fam = ["cart2", "cart3", "cylindrical"][(j // len(ACTIVE_KINDS)) % 3]
+            modes = [1, 2, 3, 4, 6][(j // (3 * len(ACTIVE_KINDS))) % 5]
+            cls = {"cart2": "PerturbedDroplet2D", "cart3": "PerturbedDroplet3D", "cylindrical": "PerturbedDroplet3DAxisSym"}[fam]
+            gs = gen_grid(rng, fam)
+            truth = gen_truth(rng, gs, cls, modes)
+            sgn = rng.choice([-1, 1])
+            truth["amplitudes"] = [rng.uniform(-0.05, 0.05) for _ in range(modes - 1)] + [sgn * rng.uniform(1.3, 1.6)]
+            cand = gen_candidate(rng, gs, truth, cls, modes, across=False, off_locus=False, tiny=False)
+            cand["amplitudes"] = truth["amplitudes"][:-1] + [sgn * rng.uniform(0.7, 0.95)]
+            cand["width"] = truth["width"]
+            adj = rng.random() < 0.3
+            return {"grid": gs, "image": gen_image_spec(rng, truth, "clean"), "candidate": cand, "vmin": 0.0, "vmax": 1.0, "adjust": adj,
+                    "dim": f"active:last_amplitude/{modes}"}
+        fam = FAMILIES[(j // len(ACTIVE_KINDS)) % len(FAMILIES)]
+        gs = gen_grid(rng, fam)
+        truth = gen_truth(rng, gs, "DiffuseDroplet", 0)
+        hs = spacing(gs)
+        hm = sum(hs) / len(hs)
+        cls = rng.choice(["DiffuseDroplet", "SphericalDroplet"])
+        cand = gen_candidate(rng, gs, truth, cls, 0, across=False, off_locus=False, tiny=False)
+        if kind == "radius":          # nothing to see: the fit shrinks the droplet towards radius 0
+            cand["radius"] = 1.2 * max(hs)
+            if cls == "DiffuseDroplet":
+                cand["width"] = 0.8 * hm
+            isp = {"kind": "const", "value": rng.choice([0.0, -0.5])}
+            return {"grid": gs, "image": isp, "candidate": cand, "vmin": 0.0, "vmax": 1.0, "adjust": False, "dim": "active:radius"}
+        if kind == "width":           # a sharp droplet: the fit shrinks the interface width towards 0
+            t2 = dict(truth, width=0.0)
+            if cls == "DiffuseDroplet":
+                cand["width"] = 0.5 * hm
+            return {"grid": gs, "image": gen_image_spec(rng, t2, "clean"), "candidate": cand, "vmin": 0.0, "vmax": 1.0, "adjust": False,
+                    "dim": "active:width"}
+        a, b = {"vrng_hi": (5.0, 0.0), "vmin_lo": (1.0, -3.0), "vmin_hi": (1.0, 3.0), "vrng_lo": (-1.0, 1.0)}[kind]
+        isp = gen_image_spec(rng, truth, "clean")
+        isp["kind"], isp["a"], isp["b"] = "affine", a, b
+        return {"grid": gs, "image": isp, "candidate": cand, "vmin": 0.0, "vmax": 1.0, "adjust": True, "dim": "active:" + kind}
+    if group == "cand":
+        kind = CAND_KINDS[j % len(CAND_KINDS)]
+        fam = FAMILIES[(j // len(CAND_KINDS)) % len(FAMILIES)]
+        if kind.startswith("on_face") or kind.startswith("corner") or kind == "outside_nonperiodic":
+            fam = ["cart1", "cart2", "cart3", "cylindrical"][(j // len(CAND_KINDS)) % 4]
+            if kind.startswith("corner") and fam in ("cart1", "cylindrical"):
+                fam = "cart2"
+        if kind in ("on_locus", "off_locus"):
+            fam = ["polar", "spherical", "cylindrical"][(j // len(CAND_KINDS)) % 3]
+        gs = gen_grid(rng, fam)
+        if kind in ("on_face_periodic", "corner_periodic", "on_face_nonperiodic"):
+            if gs["family"] == "cartesian":
+                gs["periodic"] = [kind != "on_face_nonperiodic"] * len(gs["shape"])
+            else:
+                gs["periodic_z"] = kind != "on_face_nonperiodic"
+        perturbed = True if kind in ("amplitude_on_bound", "amplitudes_zero", "last_amplitude_only") else None
+        if perturbed and fam == "cart1":
+            gs = gen_grid(rng, "cart2")
+        cls, modes = _class_for(rng, gs, perturbed)
+        if perturbed:
+            modes = rng.choice([1, 2, 3, 4, 6])
+        case = _plain_case(rng, gs, cls, modes, "clean", across=False)
+        cand, axes = case["candidate"], grid_axes(gs)
+        if kind == "radius0":
+            cand["radius"] = 0.0
+        elif kind == "width0":
+            if cls == "SphericalDroplet":
+                cand["cls"] = "DiffuseDroplet"
+            cand["width"] = 0.0
+        elif kind.startswith("on_face") or kind.startswith("corner"):
+            # exactly on a face: lower / upper, periodic / non-periodic; corner: every axis on a face
+            idx = {i: i for i in range(len(axes))} if gs["family"] == "cartesian" else {1: 2}
+            chosen = list(idx) if kind.startswith("corner") else [rng.choice(list(idx))]
+            for i in chosen:
+                cand["position"][idx[i]] = axes[i][0] if rng.random() < 0.5 else axes[i][1]
+        elif kind == "outside_nonperiodic":
+            idx = {i: i for i in range(len(axes))} if gs["family"] == "cartesian" else {1: 2}
+            i = rng.choice(list(idx))
+            if gs["family"] == "cartesian":
+                gs["periodic"][i] = False
+            else:
+                gs["periodic_z"] = False
+            lo, hi = axes[i][0], axes[i][1]
+            cand["position"][idx[i]] = lo - dy(rng, 0.25, 1.5) if rng.random() < 0.5 else hi + dy(rng, 0.25, 1.5)
+        elif kind == "amplitude_on_bound":
+            cand["amplitudes"] = [rng.uniform(-0.1, 0.1) for _ in range(modes - 1)] + [rng.choice([-1.0, 1.0])]
+        elif kind == "amplitudes_zero":
+            cand["amplitudes"] = [0.0] * modes
+        elif kind == "last_amplitude_only":
+            cand["amplitudes"] = [0.0] * (modes - 1) + [rng.choice([-1, 1]) * rng.uniform(0.02, 0.2)]
+        elif kind == "on_locus":
+            for i in grid_constraints(gs):
+                cand["position"][i] = 0.0
+        elif kind == "off_locus":
+            if cand["cls"] == "PerturbedDroplet3DAxisSym":
+                cand["cls"], cand["amplitudes"] = "DiffuseDroplet", []
+                cand.pop("amplitudes")
+            hs = spacing(gs)
+            for i in grid_constraints(gs):
+                cand["position"][i] = rng.choice([-1, 1]) * rng.uniform(0.05, 0.8) * hs[0]
+        case["dim"] = "cand:" + kind
+        return case
+    if group == "image":
+        kind = IMAGE_KINDS[j % len(IMAGE_KINDS)]
+        fam = FAMILIES[(j // len(IMAGE_KINDS)) % len(FAMILIES)]
+        gs = gen_grid(rng, fam)
+        cls, modes = _class_for(rng, gs, False)
+        case = _plain_case(rng, gs, cls, modes, "clean", across=False)
+        isp = case["image"]
+        gv, gx = case["vmin"] is not None, case["vmax"] is not None
+        if kind in ("int64", "int32", "int16", "uint8", "int8", "bool", "float32"):
+            # every level option in turn, automatic AND fitted levels first (defect F33: bounds computed in the image's type)
+            order = [(False, False, True), (True, False, True), (False, True, True), (False, False, False), (True, True, True),
+                     (True, False, False), (False, True, False), (True, True, False)]
+            gv, gx, case["adjust"] = order[(j // len(IMAGE_KINDS)) % 8]
+        if kind == "float32":
+            isp["dtype"] = "float32"
+            isp["kind"], isp["a"], isp["b"] = "affine", rng.choice([1.0, 0.5, 2.0]), rng.choice([0.0, -1.0, 5.0])
+        elif kind == "bool":
+            isp["dtype"] = "bool"
+            isp["kind"], isp["a"], isp["b"] = "affine", 1.0, 0.0
+        elif kind in ("int64", "int32", "int16", "uint8", "int8"):
+            isp["dtype"] = kind
+            isp["kind"], isp["a"], isp["b"] = "affine", float(rng.choice([100, 60, 120])), float(rng.choice([0, 5, 20]) if kind == "uint8" else rng.choice([0, 5, -20]))
+            if kind == "int8" and rng.random() < 0.5:
+                isp["a"], isp["b"] = 200.0, -100.0       # the range 200 itself does not fit int8 (vmax - vmin in the image's type wraps)
+            if kind == "uint8" and rng.random() < 0.5:
+                isp["a"], isp["b"] = 250.0, 3.0
+        elif kind == "inverted":          # dark droplet on a bright background: vmin > vmax
+            isp["kind"], isp["a"], isp["b"] = "affine", -rng.choice([1.0, 0.5, 2.0]), rng.choice([1.0, 3.0, 0.0])
+        elif kind == "const":
+            case["image"] = isp = {"kind": "const", "value": rng.choice([0.0, 0.7, 1.0, -2.0])}
+            case["vmin"], case["vmax"] = (0.0 if gv else None), (1.0 if gx else None)
+            case["dim"] = "image:const"
+            return case
+        elif kind == "field_copy":
+            isp["field"] = "copy"
+        elif kind == "field_pickle":
+            isp["field"] = "pickle"
+        elif kind in ("scale_tiny", "scale_huge"):      # rescaled intensities, >= 30 orders of magnitude apart
+            isp["kind"] = "affine"
+            isp["a"] = rng.choice([2.0 ** -20, 2.0 ** -50, 1e-15]) if kind == "scale_tiny" else rng.choice([2.0 ** 20, 2.0 ** 50, 1e15])
+            isp["b"] = rng.choice([0.0, isp["a"], -isp["a"] / 2])
+        case["vmin"], case["vmax"] = (isp["b"] if gv else None), (isp["a"] + isp["b"] if gx else None)
+        case["dim"] = "image:" + kind
+        return case
+    fam = FAMILIES[j % len(FAMILIES)]
+    gs = gen_grid(rng, fam)
+    cls, modes = _class_for(rng, gs)
+    case = _plain_case(rng, gs, cls, modes, rng.choice(["clean", "noisy", "affine"]))
+    if group == "options":
+        case["tolerance"] = TOLERANCES[j % len(TOLERANCES)]
+        case["lsq_params"] = copy.deepcopy(LSQ_PARAMS[(j // len(TOLERANCES)) % len(LSQ_PARAMS)])
+        if rng.random() < 0.3:
+            case["reuse_options"] = True
+        case["dim"] = "options:" + ("reused" if case.get("reuse_options") else "fresh")
+        return case
+    if group == "provenance":
+        case["prov"] = PROVENANCES[j % len(PROVENANCES)]
+        if rng.random() < 0.4:
+            case["lsq_params"] = copy.deepcopy(rng.choice(LSQ_PARAMS[1:]))
+        if (j // len(PROVENANCES)) % 2:
+            case["via"] = "refine_droplets"     # the plural function (serial path) handed the caller's collection
+        case["dim"] = "provenance:" + case["prov"] + ("/refine_droplets" if case.get("via") else "")
+        return case
+    if group == "types":
+        case["ctype"] = CTYPES[j % len(CTYPES)]
+        case["candidate"] = quantise(case["candidate"], case["ctype"])
+        case["vtype"] = LEVEL_TYPES[(j // len(CTYPES)) % len(LEVEL_TYPES)]
+        isp = case["image"]
+        if case["vtype"] in ("int", "np.float32"):   # levels that the type represents exactly (and their difference)
+            isp["kind"], isp["a"], isp["b"] = "affine", float(rng.choice([2, 3, 1])), float(rng.choice([-1, 5, 2, 0]))
+        gv, gx = case["vmin"] is not None, case["vmax"] is not None
+        case["vmin"], case["vmax"] = (isp["b"] if gv else None), (isp["a"] + isp["b"] if gx else None)
+        case["dim"] = f"types:{case['ctype']}/{case['vtype']}"
+        return case
+    # sequence: the result object of one refinement is refined again (same image, same options)
+    parent = case
+    child = {"grid": parent["grid"], "image": parent["image"], "candidate": None, "vmin": parent["vmin"], "vmax": parent["vmax"],
+             "adjust": parent["adjust"], "after": parent, "dim": "sequence:refined_again"}
+    return child
 
 
 def gen_fixed_point_case(rng: random.Random, k: int) -> dict:
@@ -475,6 +1038,106 @@ def gen_fixed_point_case(rng: random.Random, k: int) -> dict:
     isp = gen_image_spec(rng, truth, "affine" if k % 3 == 2 else "clean")
     return {"grid": gs, "image": isp, "candidate": copy.deepcopy(truth), "vmin": isp["b"], "vmax": isp["a"] + isp["b"],
             "adjust": bool(k % 2), "fixed_point": True}
+
+
+# =========================================================================================
+# evidence: where a case lies along the dimensions of notes/input_dimensions.md
+# =========================================================================================
+def parameter_names(case: dict, n: int) -> list[str]:
+    """names of the entries of the optimiser's vector: free coordinates, radius, width, amplitudes, [vmin, vrng]"""
+    dim = grid_dim(case["grid"])
+    names = [f"x{i}" for i in range(dim) if i not in grid_constraints(case["grid"])] + ["radius", "width"]
+    tail = ["vmin", "vrng"] if case["adjust"] else []
+    namp = n - len(names) - len(tail)
+    names += [("amplitude[last]" if i == namp - 1 else "amplitude[other]") for i in range(max(namp, 0))]
+    return names + tail
+
+
+def position_class(gs: dict, pos) -> str:
+    axes = grid_axes(gs)
+    if gs["family"] == "cartesian":
+        pairs = list(zip(axes, pos))
+    elif gs["family"] == "cylindrical":
+        pairs = [(axes[1], pos[2])]
+    else:
+        return "symmetric grid"
+    kinds = []
+    for (lo, hi, n, per), x in pairs:
+        p = "periodic" if per else "non-periodic"
+        if x == lo or x == hi:
+            kinds.append(f"on {'lower' if x == lo else 'upper'} face ({p})")
+        elif not lo < x < hi:
+            kinds.append(f"outside ({p})")
+    if not kinds:
+        return "inside"
+    faces = sum(1 for k_ in kinds if k_.startswith("on "))
+    if faces >= 2 and faces == len(pairs):
+        return "corner: " + ", ".join(sorted(set(kinds)))
+    return ", ".join(sorted(set(kinds)))
+
+
+def count_dimensions(ctx, case: dict, rec: dict):
+    gs, cand, isp = case["grid"], case["candidate"], case["image"]
+    axes, hs = grid_axes(gs), spacing(gs)
+    ctx.count("dimension_recipe", case.get("dim", "(main / probe stream)"))
+    amps = cand.get("amplitudes") or []
+    ctx.count("modes", len(amps))
+    ctx.count("amplitudes", "none" if not amps else "all zero" if not any(amps) else
+              ("last non-zero, others zero" if amps[-1] and not any(amps[:-1]) else "last non-zero" if amps[-1] else "last zero"))
+    real = axes if gs["family"] in ("cartesian", "polar", "spherical") else [axes[1]]
+    if gs["family"] in ("cartesian", "cylindrical"):
+        ctx.count("grid_origin", "entirely negative" if all(a[1] <= 0 for a in real) else "entirely positive" if all(a[0] > 0 for a in real)
+                  else "centred" if all(a[0] == -a[1] for a in real) else "contains 0")
+    if len(axes) > 1:
+        ctx.count("spacing_order", "first axis coarser" if hs[0] > hs[-1] else "last axis coarser" if hs[0] < hs[-1] else "equal")
+        ctx.count("spacing_ratio", "1" if max(hs) == min(hs) else "<= 1.5" if max(hs) / min(hs) <= 1.5 else "> 1.5")
+        ctx.count("cell_count_order", "first axis longer" if axes[0][2] > axes[-1][2] else "last axis longer" if axes[0][2] < axes[-1][2] else "equal")
+    nmin = min(a[2] for a in axes)
+    ctx.count("min_cells_on_an_axis", str(nmin) if nmin <= 2 else "3-8" if nmin <= 8 else "> 8")
+    if gs["family"] == "cylindrical":
+        zcells = 2 * cand["radius"] / hs[1]
+        ctx.count("cylinder_shape", "candidate longer in z-cells than the grid has radial cells" if zcells > axes[0][2] else
+                  "flat (fewer z-cells than radial cells)" if axes[1][2] < axes[0][2] else "regular")
+    if gs["family"] in ("polar", "spherical"):
+        ctx.count("inner_radius", "> 0" if axes[0][0] > 0 else "0")
+    ctx.count("candidate_provenance", "result object of a refinement" if case.get("after") else case.get("prov", "fresh"))
+    ctx.count("called_through", case.get("via", "refine_droplet"))
+    ctx.count("candidate_numeric_type", case.get("ctype", "list"))
+    ctx.count("level_numeric_type", case.get("vtype", "float"))
+    ctx.count("image_dtype", isp.get("dtype", "float64"))
+    ctx.count("image_field_provenance", isp.get("field", "fresh"))
+    if isp["kind"] != "const":
+        a_ = abs(isp.get("a", 1.0))
+        ctx.count("intensity_scale", "<= 1e-6" if a_ <= 1e-6 else ">= 1e6" if a_ >= 1e6 else "0.25 .. 120")
+    ctx.count("tolerance", case.get("tolerance"))
+    ctx.count("least_squares_params", "None" if case.get("lsq_params") is None else "{" + ",".join(sorted(case["lsq_params"])) + "}")
+    ctx.count("options_reused_from_an_earlier_call", bool(case.get("reuse_options")))
+    ctx.count("candidate_radius", "0" if cand["radius"] == 0 else "< 1 cell" if cand["radius"] < min(hs) else ">= 1 cell")
+    ctx.count("candidate_width", "class without width" if "width" not in cand else "None" if cand["width"] is None else
+              "0" if cand["width"] == 0 else "given")
+    ctx.count("candidate_position", position_class(gs, cand["position"]))
+    cs = grid_constraints(gs)
+    if cs:
+        ctx.count("candidate_on_symmetry_locus", all(cand["position"][i] == 0 for i in cs))
+    if rec.get("region") is not None:
+        ctx.count("fit_region", "empty" if not rec["region"].any() else "whole grid" if rec["region"].all() else "part of the grid")
+        vmin, vmax = effective_levels(case, rec)
+        ctx.count("effective_levels", "vmin < vmax" if vmin < vmax else "vmin = vmax" if vmin == vmax else "vmin > vmax")
+    call = rec["calls"][0] if rec.get("calls") else None
+    if call is not None and "x" in call:
+        names = parameter_names(case, len(call["x"]))
+        act = [f"{nm}:{'lower' if x - lo <= 1e-6 * (1 + abs(lo)) else 'upper'}" for nm, x, lo, hi in zip(names, call["x"], call["lo"], call["hi"])
+               if (math.isfinite(lo) and x - lo <= 1e-6 * (1 + abs(lo))) or (math.isfinite(hi) and hi - x <= 1e-6 * (1 + abs(hi)))]
+        for a in act or ["none"]:
+            ctx.count("bound_active_at_the_result", a)
+        on = [nm for nm, x, lo, hi in zip(names, call["x0"], call["lo"], call["hi"]) if x <= lo or x >= hi]
+        for a in on or ["none"]:
+            ctx.count("start_on_a_bound", a)
+        ctx.count("optimiser_status", call.get("status"))
+    if rec.get("out") is not None and rec["out"].get("width") is not None:
+        hm = sum(hs) / len(hs)
+        ctx.count("result_close_to_a_bound", ", ".join([w for w, c in (("radius < 0.1 cell", rec["out"]["radius"] < 0.1 * hm),
+                                                                        ("width < 0.1 cell", rec["out"]["width"] < 0.1 * hm)) if c]) or "no")
 
 
 # =========================================================================================
@@ -503,10 +1166,22 @@ def droplet_lit(ds: dict) -> str:
                qopt(ds.get("width")), vlib.listlit(ds.get("amplitudes") or [], vlib.qlit)))
 
 
+def not_in_model(case: dict) -> str | None:
+    """why a case is fed to the property oracle only, or None.  Every image data type is expressible (automatic levels are
+    Python floats, exact rationals); a level supplied as numpy.float32 is not when the levels enter the start vector
+    (adjust_values): numpy rounds vmax - vmin and the normalised levels to float32, the exact-rational model compares the
+    start vector to 1e-12"""
+    if case.get("vtype") == "np.float32" and case["adjust"] and not (case["vmin"] is None and case["vmax"] is None):
+        return "numpy.float32 level with fitted levels: vmax - vmin and the levels in units of it are float32 results"
+    return None
+
+
 def case_lit(case: dict, rec: dict) -> str | None:
     """Coq record of one recorded refinement, or None when the run cannot be expressed (non-finite data, an error
     outside the modelled enum)"""
     if rec["region"] is None:
+        return None
+    if not_in_model(case) is not None:
         return None
     call = rec["calls"][0] if rec["calls"] else None
     vals = [rec["hyp"], rec["typical"]] + ([rec["dmin"], rec["dmax"]] if rec["dmin"] is not None else [])
@@ -531,15 +1206,41 @@ def case_lit(case: dict, rec: dict) -> str | None:
         called = "true"
     stats = "None" if rec["dmin"] is None else f"(Some ({vlib.qlit(rec['dmin'])}, {vlib.qlit(rec['dmax'])}))"
     its = rec["dilations"][0]["iterations"] if rec["dilations"] else -1
-    return ("{| rc_grid := %s; rc_cand := %s; rc_vmin := %s; rc_vmax := %s; rc_adjust := %s; rc_stats := %s; "
+    try:
+        kwargs = options_lit(call.get("kwargs", {}) if call is not None else {})
+        params = "None" if case.get("lsq_params") is None else f"(Some {options_lit(case['lsq_params'])})"
+        after = "None" if rec.get("params_after") is None else f"(Some {options_lit(rec['params_after'])})"
+    except TypeError:
+        return None   # an option value that is neither a number nor a string
+    if rec.get("cand_after") is None or "candidate_respecified" in rec:
+        return None
+    return ("{| rc_grid := %s; rc_cand := %s; rc_vmin := %s; rc_vmax := %s; rc_adjust := %s; rc_tol := %s; rc_params := %s; "
+            "rc_kwargs := %s; rc_params_after := %s; rc_cand_after := %s; rc_same_object := %s; rc_stats := %s; "
             "rc_x := %s; rc_hyp := %s; rc_called := %s; rc_x0 := %s; rc_lo := %s; rc_hi := %s; "
             "rc_iter := %s; rc_out := %s |}"
             % (grid_lit(case["grid"]), droplet_lit(case["candidate"]), qopt(case["vmin"]), qopt(case["vmax"]),
-               vlib.blit(case["adjust"]), stats, x, vlib.qlit(rec["hyp"]),
+               vlib.blit(case["adjust"]), qopt(case.get("tolerance")), params, kwargs, after, droplet_lit(rec["cand_after"]),
+               vlib.blit(rec.get("returned_is_candidate")), stats, x, vlib.qlit(rec["hyp"]),
                called, x0, lo, hi, vlib.zlit(int(its)), out))
 
 
-CASE_HEADER = ("From Coq Require Import QArith ZArith List Bool.\nImport ListNotations.\n"
+def options_lit(d: dict) -> str:
+    """Coq literal of an option dict (string keys; numbers exactly, strings as strings)"""
+    items = []
+    for k, v in d.items():
+        if not (isinstance(k, str) and k.isidentifier()):
+            raise TypeError(k)
+        if isinstance(v, str) and v.replace("-", "").replace("_", "").isalnum():
+            val = f'(OS "{v}"%string)'
+        elif isinstance(v, (int, float)) and not isinstance(v, bool) and math.isfinite(v):
+            val = f"(OQ {vlib.qlit(v)})"
+        else:
+            raise TypeError(v)
+        items.append(f'("{k}"%string, {val})')
+    return "[" + "; ".join(items) + "]"
+
+
+CASE_HEADER = ("From Coq Require Import String QArith ZArith List Bool.\nImport ListNotations.\n"
                "From PD Require Import Model.Grid Gen.Gen_refine Model.Refine.\nLocal Open Scope Q_scope.\n")
 
 
@@ -622,11 +1323,36 @@ def c04_oracle(case: dict, rec: dict) -> list[dict]:
 
     if not rec["image_unchanged"]:
         fail("image modified", "the image array was modified by refine_droplet")
+    if rec["error"] == "ParentFailed":
+        return fails            # the refinement producing the candidate is judged as its own case
+    # caller-visible state (also after an exception): option dict, candidate object, the collection it belongs to
+    if not rec.get("params_unchanged", True):
+        fail("options modified", f"the caller's least_squares_params {case.get('lsq_params')} became {rec.get('params_after')}")
+    if not rec.get("cand_unchanged", True):
+        fail("candidate modified", f"the candidate object {cand} was modified in place (provenance {case.get('prov', 'fresh')}"
+                                   f"{', returned object is the candidate' if rec.get('returned_is_candidate') else ''})")
+    elif not rec.get("container_unchanged", True):
+        fail("candidate modified", f"the collection ({case.get('prov')}) holding the candidate {cand} was modified")
+    if rec.get("returned_is_candidate"):
+        fail("candidate modified", f"the returned droplet IS the candidate object {cand} (provenance {case.get('prov', 'fresh')})")
+    # the optimiser receives the documented options
+    if rec["calls"] and "kwargs" in rec["calls"][0]:
+        got, want = rec["calls"][0]["kwargs"], expected_lsq_kwargs(case)
+        if got != want or rec["calls"][0].get("n_positional", 0) != 0:
+            fail("optimiser options", f"least_squares received the options {got}; tolerance={case.get('tolerance')} and "
+                                      f"least_squares_params={case.get('lsq_params')} mean {want}")
     if rec["error"] is not None:
         fail("raises:" + rec["error"], f"refine_droplet raised {rec.get('error_message', rec['error'])}")
         return fails
     out = rec["out"]
     prom = rec["promoted"]
+    vals = list(out["position"]) + [out["radius"]] + ([out["width"]] if out.get("width") is not None else []) + list(out.get("amplitudes") or [])
+    if not all(isinstance(v, float) and math.isfinite(v) for v in vals):
+        fail("invalid result", f"the returned droplet has non-finite entries: {out}")
+        return fails
+    if len(out["position"]) != len(cand["position"]):
+        fail("invalid result", f"the returned droplet has {len(out['position'])} coordinates, the candidate {len(cand['position'])}")
+        return fails
     # class
     want_cls = prom["cls"]
     if out["cls"] != want_cls:
@@ -654,10 +1380,11 @@ def c04_oracle(case: dict, rec: dict) -> list[dict]:
         fail("position outside box", w)
     # cost over the fitted region, recomputed from the returned droplet
     region, image = rec["region"], rec["image"]
-    vmin0, vmax0 = effective_levels(case, rec)
-    vrng0 = vmax0 - vmin0
+    vmin0, vrng0 = impl_levels(case, rec)
+    scale = rec["scale"] = level_scale(vrng0)
     if case["adjust"] and rec["calls"] and "x" in rec["calls"][0]:
-        vmin1, vrng1 = (float(v) for v in rec["calls"][0]["x"][-2:])
+        # the fitted levels are in units of `scale`
+        vmin1, vrng1 = (float(v) * scale for v in rec["calls"][0]["x"][-2:])
     else:
         vmin1, vrng1 = vmin0, vrng0
     try:
@@ -667,7 +1394,11 @@ def c04_oracle(case: dict, rec: dict) -> list[dict]:
         fail("invalid result", f"the returned droplet {out} cannot be rendered: {type(e).__name__}: {e}")
         return fails
     rec["dev0"], rec["dev1"] = dev0, dev1
-    if not dev1 <= dev0 * (1 + COST_RTOL) + COST_ATOL * max(1.0, vrng1 * vrng1):
+    # float32 data / levels: what the optimiser minimised differs from the binary64 recomputation by rounding (derived bound)
+    noise0 = single_precision_noise(case, rec, scale, vmin0, vrng0, dev0 / scale ** 2)
+    noise1 = single_precision_noise(case, rec, scale, vmin1, vrng1, dev1 / scale ** 2)
+    rec["noise"] = max(noise0, noise1)
+    if not dev1 <= dev0 * (1 + COST_RTOL) + COST_ATOL * max(1.0, vrng1 * vrng1) + (noise0 + noise1) * scale ** 2:
         fail("cost increased", f"squared deviation over the fitted region grew from {dev0!r} to {dev1!r}")
     # the region / intensity levels the implementation used are the documented ones
     if rec["dilations"]:
@@ -679,8 +1410,9 @@ def c04_oracle(case: dict, rec: dict) -> list[dict]:
         fail("fit region", f"{rec['calls'][0]['nres']} residuals but the fit region has {int(region.sum())} cells")
     if rec["calls"] and "cost0" in rec["calls"][0]:
         c0 = rec["calls"][0]["cost0"]
-        if not math.isclose(2 * c0, dev0, rel_tol=1e-9, abs_tol=1e-18):
-            fail("start", f"cost at the start vector {2 * c0!r} is not the candidate's squared deviation {dev0!r}")
+        if not math.isclose(2 * c0, dev0 / scale ** 2, rel_tol=1e-9, abs_tol=1e-18 + noise0):
+            fail("start", f"cost at the start vector {2 * c0!r} is not the candidate's squared deviation {dev0!r} in units of the "
+                          f"intensity range ({scale!r} squared): {dev0 / scale ** 2!r}")
     # fixed point
     if case.get("fixed_point"):
         tol = FIXED_TOL * max(1.0, abs(cand["radius"]))
@@ -753,6 +1485,37 @@ def finding_conditions(case: dict, rec: dict) -> list:
     if auto and not case["adjust"]:
         conds.append("vmin or vmax None and adjust_values False")
     return conds
+
+
+# Input classes on which the UNCHANGED /repo fails a statement that the audit of notes/input_dimensions.md added and
+# whose status (defect of py-droplets or not) is not decided yet: reported in the evidence notes, NOT judged.
+# (S1 "candidate fitted in place" and S2 "integer overflow of the fitted-level bounds" were decided: defects F32 / F33,
+# repaired in /repo 0dd6217 / 500ebf2, replays corpus/defects.py F32 / F33 -- both input classes are judged now.)
+SUSPECTED: list[dict] = []
+
+
+def near_bound_start(call: dict) -> bool:
+    """scipy's find_active_constraints(x0, lb, ub, rstep=1e-10) flags an entry that is not ON a bound"""
+    x0, lo, hi = call["x0"], call["lo"], call["hi"]
+    for x, l, h in zip(x0, lo, hi):
+        if math.isfinite(l) and l < x and x - l < 1e-10 * max(1.0, abs(l)):
+            return True
+        if math.isfinite(h) and x < h and h - x < 1e-10 * max(1.0, abs(h)):
+            return True
+    return False
+
+
+def suspected_conditions(case: dict, rec: dict) -> list[str]:
+    return []
+
+
+def match_suspected(case: dict, rec: dict, failure: str):
+    conds = suspected_conditions(case, rec)
+    for e in SUSPECTED:
+        fl = e["failure"] if isinstance(e["failure"], list) else [e["failure"]]
+        if failure in fl and e["condition"] in conds:
+            return e
+    return None
 
 
 def match_known(prop: str, case: dict, rec: dict, failure: str):
